@@ -31,6 +31,7 @@ type Config struct {
 	StopOnFirst bool
 	MergeFuncs  map[string]bool // pure functions summarised by ITE-merging their paths
 	ExactReal   bool            // concrete float divisions that are inexact are kept as exact rationals
+	FeasMs      int             // shorter solver timeout for branch-feasibility queries (unknown keeps both sides)
 }
 
 func (c *Config) initAllowed(path string) bool {
@@ -276,7 +277,7 @@ func (w *Worker) runPath(fn *ssa.Function, args []interface{}, prefix []int64, o
 		maxSteps = 20_000_000
 	}
 	pc := &pathCtx{solver: w.Solver, prefix: prefix, stats: out.Stats, maxSteps: maxSteps, names: map[string]int{},
-		floatFP: w.Cfg.FloatFP, mapOrder: w.Cfg.MapOrder}
+		floatFP: w.Cfg.FloatFP, mapOrder: w.Cfg.MapOrder, feasMs: w.Cfg.FeasMs}
 	i := w.newInterp(pc)
 	w.Solver.Push()
 	defer func() {
